@@ -110,6 +110,19 @@ func runC10(c *Ctx) bool {
 				doc = gen.Spell(f, sp)
 			}
 		}
+		if j%40 == 13 {
+			// a line beyond the scanner's 64 KiB limit, as the first, a middle or the last line:
+			// the simple mode reports it, so the massive mode must
+			ls := strings.Split(gen.Spell(f, gen.Canonical), "\n")
+			if ls[len(ls)-1] == "" {
+				ls = ls[:len(ls)-1]
+			}
+			pos := []int{0, len(ls) / 2, len(ls) - 1}[(j/40)%3]
+			ls[pos] = "- " + strings.Repeat("x", 66000+j%5000)
+			doc = strings.Join(ls, "\n") + "\n"
+			cs.Kind = "malformed"
+			cs.Tags = []string{"overlong-line"}
+		}
 		cs.Depths, cs.Names = gen.Depths(f)
 		cs.SetDoc(doc)
 		cs.Opt = map[string]string{"op": c10Ops[j%len(c10Ops)]}
@@ -379,6 +392,12 @@ func evalC10(c *Ctx, cs *Case) {
 	if cs.HasTag("large-blocks") {
 		// big documents: fewer executions, the profiles that matter for torn blocks
 		procs = []int{[]int{2, 4, 16}[r.Intn(3)]}
+		profiles = []int{0, 1, 3}
+	}
+	if cs.HasTag("overlong-line") && c.Quick() {
+		// the question is only "error iff": one processor (where a lost error is most likely) and
+		// the machine's own count, three profiles
+		procs = []int{1, 16}
 		profiles = []int{0, 1, 3}
 	}
 	oldProcs := runtime.GOMAXPROCS(0)
